@@ -916,7 +916,7 @@ func c4Grid(thorough bool) []*c4Abs {
 // the QE list without a match, honest controls); returns spec + tags.
 func c4Special(rng *rand.Rand, k int) (*world.Spec, []string) {
 	tee1 := k % 2
-	kind := (k / 2) % 15
+	kind := (k / 2) % 17
 	s := c4Base(rng, tee1)
 	sgx := s.Cert("leaf").Sgx
 	tee := s.Quote.Body.TeeTcbSvn
@@ -992,6 +992,27 @@ func c4Special(rng *rand.Rand, k int) (*world.Spec, []string) {
 		sel := good
 		sel.Status = []string{"OutOfDate", "Revoked", "OutOfDateConfigurationNeeded"}[rng.IntN(3)]
 		s.Tcb.Levels = []world.Level{above, sel}
+	case 14:
+		// PCE SVN is a 16-bit number: a level asking for 256·k + j (j at or below the platform's low byte) is ABOVE a platform
+		// whose PCE SVN is below 256 — it is listed first and UpToDate, the level Intel's algorithm selects comes second
+		name = "pcesvn-level-above-8-bits-listed-first"
+		above := good
+		above.PceSvn = 256*(1+rng.IntN(200)) + rng.IntN(sgx.PceSvn+1)
+		sel := good
+		sel.Status = []string{"OutOfDate", "Revoked"}[rng.IntN(2)]
+		s.Tcb.Levels = []world.Level{above, sel}
+		if rng.IntN(3) == 0 {
+			s.Tcb.Levels = []world.Level{above}
+			name += "/alone"
+		}
+	case 15:
+		// … and a platform PCE SVN above 255 whose low byte is small: levels between the low byte and the real value match
+		name = "pcesvn-platform-above-8-bits"
+		sgx.PceSvn = 256*(1+rng.IntN(200)) + rng.IntN(4)
+		mid := good
+		mid.PceSvn = 200 + rng.IntN(50) // below the platform, above its low byte
+		mid.Status = "UpToDate"
+		s.Tcb.Levels = []world.Level{mid, {Status: "OutOfDate"}}
 	default:
 		name = "honest-control"
 		s.Tcb.Levels = []world.Level{good}
@@ -1147,9 +1168,9 @@ func c4AccOK(w *world.World) bool {
 func c04(r *hx.Run) {
 	thorough := r.Tier == "thorough"
 	grid := c4Grid(thorough)
-	nSpecial, nRandom := 30*3, 1900
+	nSpecial, nRandom := 34*3, 1900
 	if thorough {
-		nSpecial, nRandom = 30*40, 22000
+		nSpecial, nRandom = 34*40, 22000
 	}
 	// the plainest instance of the two shapes the statement singles out first (platform level not UpToDate while the TDX module
 	// level is; no level matches at all), so that the first recorded cases of a defect are its plainest form
